@@ -8,16 +8,23 @@ C10_CLASSES = ('ledger:', 'lifetime:', 'model:', 'guard:use-after-free', 'asan:h
                'asan:attempting-double-free', 'asan:bad-free', 'watchdog:')
 
 
-def prop_of(cls):
+def prop_of(cls, v=None, profile=None):
+    """Fixed attribution (DESIGN 2.7).  Ledger/lifetime/model/use-after-free classes are C10.  A bounds class (guard, asan
+    overflow, canary, segv) is C01 - except in a C10 history when the failing access is made inside a member function of
+    image/any_image (constructor, assignment, recreate, swap ...): then the container protocol itself used storage it does
+    not own ("an image owns exactly one live allocation of the size it recorded", "the target still holds a valid image"),
+    which is what C10 states, and the history is what brought it there."""
     for p in C10_CLASSES:
         if cls.startswith(p):
             return 'C10'
+    if profile == 'c10' and v is not None and v.get('in_image_member'):
+        return 'C10'
     return 'C01'
 
 
 TIERS = {
     # histories per binary
-    ('C10', 'quick'): dict(n14=1400, n17=900, chunk=25, maxfaults=250),
+    ('C10', 'quick'): dict(n14=5000, n17=3000, chunk=25, maxfaults=250),
     ('C10', 'thorough'): dict(n14=90000, n17=60000, chunk=100, maxfaults=400),
     ('C01', 'quick'): dict(n14=20000, n17=5000, chunk=250, maxfaults=0),
     ('C01', 'thorough'): dict(n14=600000, n17=150000, chunk=500, maxfaults=0),
@@ -126,7 +133,7 @@ def check(a):
     seen_sig = {}
     violations, known_hit, exit2 = [], {}, False
     for std, plan, v, origin in cands:
-        vp = prop_of(v['cls'])
+        vp = prop_of(v['cls'], v, profile)
         cfgs = config_of(plan) if plan else 'unknown'
         sig = '%s|%s|%s' % (vp, v['cls'], v['site'])
         if vp != prop:
